@@ -317,6 +317,7 @@ func ComposeBuilders(selector Selector, config CompositionConfig) RewriteRule {
 
 		newBuilders := make([]ast.Builder, 0, len(builders))
 		composableBuilders := make(map[string]ast.Builders)
+		panelTypes := make([]string, 0)
 
 		for _, builder := range builders {
 			// the builder isn't selected: let's leave it untouched
@@ -331,10 +332,16 @@ func ComposeBuilders(selector Selector, config CompositionConfig) RewriteRule {
 			}
 
 			panelType := schema.Metadata.Identifier
+			if _, seen := composableBuilders[panelType]; !seen {
+				panelTypes = append(panelTypes, panelType)
+			}
 			composableBuilders[panelType] = append(composableBuilders[panelType], builder)
 		}
 
-		for panelType, buildersForType := range composableBuilders {
+		// in the order the types were met: the resulting list of builders must
+		// not depend on the iteration order of a map
+		for _, panelType := range panelTypes {
+			buildersForType := composableBuilders[panelType]
 			composedBuilders, err := composeBuilderForType(schemas, builders, config, panelType, sourceBuilder, buildersForType)
 			if err != nil {
 				return nil, fmt.Errorf("could not apply ComposeBuilders builder veneer: %w", err)
